@@ -277,7 +277,7 @@ func (g *Gen) CoroutineProgram() *Chunk {
 			&SNumFor{Var: i, Start: Num(1), Limit: Num(float64(n)), Body: Blk(
 				&SIf{Sites: make([]Site, 1), Conds: []Expr{Un("not", &EParen{X: CallN("pcall", co("wrap", Fn(nil, false, Blk(CallSN("error", &ETable{})))))})}, Blocks: []*Block{Blk(Assign1(N(cnt), Bin("+", N(cnt), Num(1))))}})},
 			CallSN("emit", Str("wrap-failures"), N(cnt)),
-			CallSN("emit", Str("after-wrap-failures"), co("resume", co("create", Fn([]string{"a"}, false, Blk(Return(Bin("*", N("a"), Num(2))))), Num(21)), Call(co("wrap", Fn(nil, false, Blk(Return(Str("w")))))))))
+			CallSN("emit", Str("after-wrap-failures"), co("resume", co("create", Fn([]string{"a"}, false, Blk(Return(Bin("*", N("a"), Num(2)))))), Num(21)), Call(co("wrap", Fn(nil, false, Blk(Return(Str("w"))))))))
 		g.cover("co:many-wrap-failures")
 	}
 	// a coroutine is as deep and as wide as the main thread: 150 nested calls, 250 values at once
